@@ -32,6 +32,13 @@ def run(res, replay=None):
                 cases.append({'spec': s, 'loci_first': lf})
                 continue
             s = gen.rand_spec(rng, n_total=rng.choice([2, 3, 4]), n_demes=nd, n_epochs=rng.choice([1, 2]), end_time='always')
+            if i % 4 == 0:
+                # late colonisation: all samples in the first deme, NO migration during the first epoch, migration afterwards (the other
+                # demes' marginals are exactly zero at first and must still be accumulated later)
+                s = gen.rand_spec(rng, n_total=rng.choice([2, 3]), n_demes=nd, n_epochs=2, end_time='never', isolation=True)
+                tot_ = sum(c for _, c in s['n_items'])
+                s['n_items'] = [[p, (tot_ if j == 0 else 0)] for j, (p, c) in enumerate(s['n_items'])]
+                s['end_time'] = max(float(t) for d in s['migration_rates'].values() for t in d) + 3.0
             unreachable = []
             if i % 4 == 1:
                 # last deme holds no sample and nothing ever migrates into it
